@@ -4,6 +4,7 @@ package props
 // mutated transactions, observed through CheckTx (accept <=> code 0) and DeliverTx (fee movement).
 
 import (
+	"bytes"
 	"encoding/hex"
 	"fmt"
 
@@ -56,7 +57,7 @@ func sigDepthOK(limit uint64, pk crypto.PublicKeyMultiSig) bool {
 }
 
 // anteModel decides from the statement whether the transaction must be accepted by the ante handler.
-func (ch *chain) anteModel(before *chainView, txBytes []byte) anteDecision {
+func (ch *chain) anteModel(before *chainView, txBytes []byte, bt *builtTx) anteDecision {
 	d := anteDecision{fee: sdk.ZeroInt()}
 	var std authtypes.StdTx
 	if len(txBytes) == 0 || simCdc.UnmarshalBinaryLengthPrefixed(txBytes, &std) != nil || std.Msg == nil {
@@ -142,14 +143,31 @@ func (ch *chain) anteModel(before *chainView, txBytes []byte) anteDecision {
 		d.reason = "too many signatures"
 		return d
 	}
-	signBytes, err := authtypes.StdSignBytes(simChainID, std.Entropy, std.Fee, std.Msg, std.Memo)
-	if err != nil {
-		d.reason = "no sign bytes"
-		return d
-	}
-	if !pk.VerifyBytes(signBytes, std.Signature.Signature) {
-		d.reason = "signature does not verify over the sign bytes of the delivered content"
-		return d
+	if bt != nil && bt.Constructed {
+		// decided by construction, without the library's sign bytes or verification: the harness knows which
+		// key signed which content and what was changed afterwards
+		switch {
+		case bt.ContentChanged:
+			d.reason = "a signed field (chain id, entropy, fee, message or memo) was changed after signing"
+			return d
+		case bt.SigChanged:
+			d.reason = "the signature bytes were altered after signing"
+			return d
+		case !bytes.Equal(pk.RawBytes(), ch.pool[bt.SignKey].Pub.RawBytes()):
+			d.reason = "the key offered for verification is not the key that signed"
+			return d
+		}
+	} else {
+		// byte-level mutants and replays of earlier bytes: nothing is known by construction
+		signBytes, err := authtypes.StdSignBytes(simChainID, std.Entropy, std.Fee, std.Msg, std.Memo)
+		if err != nil {
+			d.reason = "no sign bytes"
+			return d
+		}
+		if !pk.VerifyBytes(signBytes, std.Signature.Signature) {
+			d.reason = "signature does not verify over the sign bytes of the delivered content"
+			return d
+		}
 	}
 	if hex.EncodeToString(d.keyAddr) != hex.EncodeToString(d.signer) {
 		d.reason = fmt.Sprintf("the signing key's address %s is not the signer %s declared by the message", d.keyAddr, d.signer)
@@ -180,7 +198,7 @@ func (o *c03Oracle) after(ch *chain, ci *callInfo) *Violation {
 		return nil
 	}
 	before, after := ci.Before, ci.After
-	d := ch.anteModel(before, ci.TxBytes)
+	d := ch.anteModel(before, ci.TxBytes, ci.Built)
 	where := fmt.Sprintf("%s at height %d (block %d tx %d, kind %s, mutation %q, signed with key %d, key in signature %v)", ci.Kind, ci.Height, ci.BlockIx, ci.TxIx, ci.Tx.Kind, ci.Tx.Mut, ci.Built.SignKey, ci.Tx.KeyInSig)
 	feeAddr := authtypes.NewModuleAddress(authtypes.FeeCollectorName)
 	cell := fmt.Sprintf("%s/keyinsig=%v/mut=%s", keyKind(ch, ci), ci.Tx.KeyInSig, ci.Tx.Mut)
